@@ -167,18 +167,20 @@ impl TypeInference {
     }
 
     fn narrow_binop_int_literals(left: &mut TypedExpr, right: &mut TypedExpr) {
+        // a literal operand takes the sized type of the other operand; redundant parentheses
+        // around the literal make no difference
         let narrow = |lit: &mut TypedExpr, target: &InferType| {
-            if let TypedExprKind::Int(v) = &lit.kind
+            if let Some(v) = lit.int_literal_value()
                 && target.is_integer()
                 && *target != InferType::I64
-                && InferType::int_fits(*v, target)
+                && InferType::int_fits(v, target)
             {
-                lit.ty = target.clone();
+                lit.retype_int_literal(target);
             }
         };
-        if matches!(&left.kind, TypedExprKind::Int(_)) && right.ty.is_integer() {
+        if left.int_literal_value().is_some() && right.ty.is_integer() {
             narrow(left, &right.ty.clone());
-        } else if matches!(&right.kind, TypedExprKind::Int(_)) && left.ty.is_integer() {
+        } else if right.int_literal_value().is_some() && left.ty.is_integer() {
             narrow(right, &left.ty.clone());
         }
     }
